@@ -204,8 +204,8 @@ func Yield(site string) {
 //go:norace
 func (s *Sched) masked(site string) bool {
 	m := s.YieldMask
-	if m == 0 {
-		return false
+	if m == 0 || (len(site) > 1 && site[0] == 'h' && site[1] == '#') {
+		return false // harness yields are never masked
 	}
 	// class = first letter after '#'
 	for i := len(site) - 1; i >= 0; i-- {
@@ -214,8 +214,9 @@ func (s *Sched) masked(site string) bool {
 				switch site[i+1] {
 				case 'e': // entry
 					return m&MaskEntry != 0
-				case 'c', 's': // chan, select
-					return m&MaskChan != 0
+				case 'c', 's': // chan, select: never masked - after a rendezvous both
+					// parties are awake and must park before touching anything
+					return false
 				case 'u': // after unlock
 					return m&MaskUnlock != 0
 				case 'g': // go
